@@ -346,8 +346,11 @@ impl Ep {
         if !dir_ok && errk != Some(ErrorKind::StreamState) {
             sink.monitor_fail(&format!("direction:{}:accepted", cell), &format!("{} => {} (RFC 9000: STREAM_STATE_ERROR)", op, obs));
         }
-        if dir_ok && errk == Some(ErrorKind::StreamState) {
-            sink.monitor_fail(&format!("direction:{}:rejected", cell), &format!("{} => {} (legal on that stream type)", op, obs));
+        // RFC 9000 §19.5/§19.8/§19.10: STREAM / STOP_SENDING / MAX_STREAM_DATA for a locally initiated stream
+        // that has not yet been created is a STREAM_STATE_ERROR too (the only other legal source of it)
+        let not_created = local && matches!(k, Kind::Stream | Kind::Stop | Kind::MaxSd) && s.id() >= self.opened[i];
+        if dir_ok && !not_created && errk == Some(ErrorKind::StreamState) {
+            sink.monitor_fail(&format!("direction:{}:rejected", cell), &format!("{} => {} (legal on that stream type, stream open)", op, obs));
         }
         if dir_ok && !local {
             // stream limit (RFC 9000 §4.6)
@@ -367,7 +370,7 @@ impl Ep {
                 self.used_hi[i] = self.used_hi[i].max(s.id() + 1);
             }
         }
-        if dir_ok && local && matches!(k, Kind::Stream | Kind::Stop | Kind::MaxSd) && s.id() >= self.opened[i] && res.as_ref().is_ok_and(|r| r.is_ok()) {
+        if dir_ok && not_created && res.as_ref().is_ok_and(|r| r.is_ok()) {
             // RFC 9000 §19.5/§19.8/§19.10: locally initiated stream that has not yet been created
             sink.monitor_fail(&format!("not_yet_created:{}", k.name()), &format!("{} => {}: stream index {} was never opened by this endpoint ({} opened; RFC 9000: STREAM_STATE_ERROR)", op, obs, s.id(), self.opened[i]));
         }
@@ -412,7 +415,7 @@ impl Ep {
                             _ => m.closed = true,
                         }
                     } else if k == Kind::Reset {
-                        m.closed = true; // the code drops the stream before checking; the connection is dead anyway
+                        m.closed = true; // a refused RESET_STREAM is a connection error: nothing more is judged on this stream
                     }
                 }
             }
